@@ -18,7 +18,8 @@ where
 {
     fn write_xml(&self, writer: &mut W) -> WriterResult<()> {
         for (operation_name, operation) in &self.operations {
-            writeln!(writer, "\n/* {operation_name} */\n")?;
+            // the name is schema text: as an escaped literal in a line comment it cannot end the comment
+            writeln!(writer, "\n// operation {operation_name:?}\n")?;
 
             // input
             let operation_name = to_pascal_case(operation_name);
